@@ -81,6 +81,7 @@ func (p *staticProfile) Run(s *Sim) {
 	p.k.ReadyDelayMax = 20 * time.Second
 	p.k.WatchPods()
 	p.k.StartCCM(40 * time.Second)
+	p.k.StartProviderGC(2*time.Minute, 5*time.Minute)
 	if !s.Cfg.NoFaults {
 		p.k.PNoRegister = []float64{0, 0.1}[ch.Pick("st.pnoreg", 2)]
 	}
